@@ -107,7 +107,7 @@ def reaching_defs(func, name, at_stmt, defs):
     return collected if collected else all_defs
 
 
-def dependency_roots(func, exprs, stop_names=(), visited=None, at=None):
+def dependency_roots(func, exprs, stop_names=(), visited=None, at=None, through_loops=False):
     """Transitive closure of names an expression list depends on, through the local definitions that
     reach the use (data) and the guards dominating those definitions (control)."""
     defs = local_defs(func)
@@ -136,6 +136,10 @@ def dependency_roots(func, exprs, stop_names=(), visited=None, at=None):
                         todo.extend((x, stmt) for x in _names_loaded(g.test))
             if any(kind == "loop" for kind, _v, _s in rd):
                 roots.add(n)     # a loop variable is a root of its own (element of the iterable)
+                if through_loops:
+                    for kind, val, stmt in rd:
+                        if kind == "loop":
+                            todo.extend((x, stmt) for x in _names_loaded(val))
             continue
         roots.add(n)
     return roots
